@@ -252,6 +252,44 @@ theorem protocolErrorB_good {a0 : A} {s : S} (h : Good a0 s) (code : Nat) (enh :
     exact ⟨i, by rw [cfg]; simp⟩
   · exact ⟨h2, by simp⟩
 
+/-! ### frame facts: which components the primitives leave alone (no invariant needed) -/
+
+theorem delivFinish_w (s : S) (k : Nat) (e : RdEnd) : (delivFinish s k e).w = s.w ∧ (delivFinish s k e).tlsW = s.tlsW ∧
+    (delivFinish s k e).be = s.be := by
+  unfold delivFinish; simp only
+  by_cases h : (delivOutcome s k e == BRes.panic) = true <;> simp [h, setDrec, emit]
+
+theorem abortBdat_w (s : S) : (abortBdat s).w = s.w ∧ (abortBdat s).tlsW = s.tlsW ∧ (abortBdat s).be = s.be := by
+  unfold abortBdat
+  split
+  · unfold delivAbort
+    split
+    · simpa using delivFinish_w s _ _
+    · simp
+  · simp
+
+theorem resetSess_c (s : S) : (resetSess s).c = s.c ∧ (resetSess s).w = s.w ∧ (resetSess s).tlsW = s.tlsW ∧
+    (resetSess s).be = s.be ∧ (resetSess s).cfg = s.cfg := by
+  unfold resetSess; split <;> simp [emit]
+
+theorem resetConn_c (s : S) :
+    (resetConn s).c = { s.c with bdat := none, bdatStatus := none, bytesReceived := 0, fromReceived := false, recipients := [] } ∧
+    (resetConn s).w = s.w ∧ (resetConn s).tlsW = s.tlsW ∧ (resetConn s).be = s.be ∧ (resetConn s).cfg = s.cfg := by
+  unfold resetConn clearEnvelope
+  obtain ⟨h1, h2, h3, h4, h5⟩ := resetSess_c (abortBdat s)
+  obtain ⟨c1, cfg1, _⟩ := abortBdat_spec s
+  obtain ⟨w1, t1, b1⟩ := abortBdat_w s
+  simp [h1, h2, h3, h4, h5, c1, cfg1, w1, t1, b1]
+
+theorem logoutSess_c (s : S) : (logoutSess s).c = { s.c with session := none } ∧ (logoutSess s).w = s.w ∧
+    (logoutSess s).tlsW = s.tlsW ∧ (logoutSess s).be = s.be ∧ (logoutSess s).cfg = s.cfg := by
+  unfold logoutSess
+  split
+  · simp [emit]
+  · rename_i hn
+    refine ⟨?_, rfl, rfl, rfl, rfl⟩
+    cases hc : s.c; rw [hc] at hn; simp only at hn; simp [hn]
+
 /-! ### states that differ only in wire / backend script / delivery records -/
 
 structure Same (s s1 : S) : Prop where
